@@ -104,9 +104,8 @@ def run(ctx):
 CHECK = {
     "lean_modules": ["P3R.Props.C13", "P3R.Witness.C13"],
     "lean_exes": ["p3r_driver_c13"],
-    "theorems": ["P3R.C13.compileBase_sound", "P3R.C13.compileExt_sound", "P3R.C13.evalFolded_sound",
-                 "P3R.C13.evalFoldedAir_reordered", "P3R.C13.evalFoldedAir_sound_partial",
-                 "P3R.C13.nativeFoldedT_eq", "P3R.Witness.C13.fold_order_counterexample"],
+    "theorems": ["P3R.C13.compileBase_sound", "P3R.C13.compileExt_sound", "P3R.C13.evalFoldedAir_sound",
+                 "P3R.C13.nativeFoldedT_eq", "P3R.Witness.C13.regression"],
     "run": run,
     "trusted_base": [
         "executable field instances of the driver: PF p and the quartic binomial extension Ext4 (Model/ExtField.lean), "
@@ -124,8 +123,8 @@ CHECK = {
         "public_input/define_const/add/sub/mul/mul_add; other builder calls are not covered by a proof)",
         "evaluation is compared where the native side is defined (row offsets 0/1, indices inside the opened slices); elsewhere both sides panic (checked differentially)",
         "public values are base-field elements on the native side (VerifierConstraintFolder takes &[Val]); the model and the circuit accept any extension value",
-        "FULL STATEMENT NOT PROVED: for AIRs that assert an extension constraint before a base constraint the property is false of the "
-        "current code (known finding F-C13-1, Witness/C13.lean); the proved theorem requires BaseFirst",
+        "finding F-C13-1 (fold order) is repaired in /repo: the model folds in emission order like the code; its former witness "
+        "is a regression case of the corpus (corpus/c13/fc13_1_ext_before_base.json) and of Witness/C13.lean",
     ],
 }
 
@@ -143,8 +142,8 @@ MANIFEST_ENTRY = {
         "category": "proof",
         "text": "compile_base/compile_ext terminate within fuel 3|nodes|+1 and return an id whose value is the native recursive "
                 "value, for every DAG / sharing / depth / cache content / assignment; eval_folded_circuit's value equals the native "
-                "fold of base-then-extension constraints; equals the native folder for AIRs with no extension constraint before a "
-                "base constraint (partial: the full statement is refuted by a Lean witness replayed on the real code).",
+                "constraint folder's accumulator (acc*alpha+c in emission order) for every emission order of base and extension "
+                "constraints: the full C13 statement (P3R.C13.evalFoldedAir_sound).",
         "design_ref": "4/C13",
     },
     "level_note": "Lean kernel + 3 standard axioms; model hand-written and tied to the Rust by id-exact and value-exact differential runs "
